@@ -72,9 +72,9 @@ Definition needs_more_than_audits (o : origin) : bool :=
 
 Lemma audit_grant_caveat m e : needs_more_than_audits (e_origin e) = false -> edge_caveat m e <= CV_FreshImport.
 Proof.
-  unfold edge_caveat, needs_more_than_audits. destruct (e_origin e) as [i [|]| | | | | |]; try discriminate; intros _;
-    try (destruct (e_fresh e); unfold CV_None, CV_FreshPublisher, CV_FreshImport, CV_NonImportableAudit; lia);
-    try (unfold CV_NonImportableAudit, CV_FreshImport; lia).
+  unfold edge_caveat, needs_more_than_audits.
+  destruct (e_origin e) as [i [|]| | | | | |]; try discriminate; intros _;
+    destruct m, (e_fresh e); vm_compute; discriminate.
 Qed.
 
 Lemma fpath_avoiding_level t s c m x w :
